@@ -250,7 +250,10 @@ func (o c19Opt) build() *storage.LookupOptions {
 // from the default; page size and offset are solver variables.
 func c19SymOpt(name string) c19Opt {
 	o := c19Opt{lower: -1, upper: -1}
-	switch verif.Choice(name+".dim", 9) {
+	switch verif.Choice(name+".dim", 10) {
+	case 9: // a combination the driver rejects: both calls must report the error
+		o.latest = true
+		o.filter = 1
 	case 1:
 		o.max = verif.Int(name + ".max")
 		o.off = verif.Int(name + ".off")
@@ -492,5 +495,45 @@ func HarnessC19Interleave() {
 		verif.Assert(gotE == wantE, "C19/interleave/exist-same-answer")
 	} else {
 		verif.Assert(sameSpecs(got, want), "C19/interleave/read-same-answer")
+	}
+}
+
+
+// C19 (a''): two reads of (possibly) different methods and different arguments
+// through one handle: cache keys must separate the methods and the arguments
+// (a node that is subject and object, triples that differ only in the anchor
+// or the kind of their predicate).
+func HarnessC19MethodPairs() {
+	mk := func(s, p, o byte, pk, pa int) *spec {
+		sp := &spec{sb: s, pb: p, ob: o, pk: pk, pa: pa}
+		sp.t = sp.build()
+		return sp
+	}
+	// arguments: a self-loop at an instant, the same one nanosecond later, the
+	// immutable one, and another subject
+	args := []*spec{mk('a', 'p', 'a', 1, 0), mk('a', 'p', 'a', 1, 1), mk('a', 'p', 'a', 0, 0), mk('b', 'p', 'a', 1, 0)}
+	stored := []*spec{args[0], args[3], mk('a', 'q', 'b', 0, 0), mk('b', 'r', 'a', 0, 0)}
+	all := append(append([]*spec{}, stored...), args[1], args[2])
+	ms := memoization.New(memory.NewStore())
+	ps := memory.NewStore()
+	mg, e1 := ms.NewGraph(ctx, "?g")
+	pg, e2 := ps.NewGraph(ctx, "?g")
+	verif.Assume(e1 == nil && e2 == nil)
+	mg.AddTriples(ctx, triples(stored))
+	pg.AddTriples(ctx, triples(stored))
+	lo := &storage.LookupOptions{}
+	for i := 0; i < 2; i++ {
+		m := verif.Choice("method", 12)
+		q := args[verif.Choice("arg", len(args))]
+		got, gotE, err1, f1 := c19ReadAll(mg, m, q, lo, all)
+		want, wantE, err2, f2 := c19ReadAll(pg, m, q, lo, all)
+		verif.Reach("read")
+		verif.Assert(verif.And(!f1, !f2), "C19/methods/result-derived-from-stored-triple")
+		verif.Assert((err1 == nil) == (err2 == nil), "C19/methods/same-error")
+		if m == 11 {
+			verif.Assert(gotE == wantE, "C19/methods/exist-same-answer")
+		} else {
+			verif.Assert(sameSpecs(got, want), "C19/methods/read-same-answer")
+		}
 	}
 }
